@@ -42,7 +42,7 @@ func c16Scenario(p c16Params) *explore.Scenario {
 		Family: "misbehave",
 		Name:   p.name(),
 		Params: map[string]interface{}{"who": p.Who, "at": p.At, "events": p.NEvents, "value": p.Value, "custom": p.Custom},
-		Opt:    vx.Options{MaxSteps: 40000},
+		Opt:    vx.Options{MaxSteps: 400000},
 	}
 	// the event sequence: PRIVMSGs numbered 0..n-1; a built-in handler is driven into a panic by an extra
 	// malformed line of its verb sent right after event p.At
@@ -304,6 +304,8 @@ func init() {
 			add(c16Params{Who: "bg-block", At: 0, Value: "none", NEvents: 2})
 			add(c16Params{Who: "bg-block", At: 0, Value: "none", NEvents: 3})
 			add(c16Params{Who: "bg-block", At: 1, Value: "none", Custom: true, NEvents: 3})
+			// a background handler that never returns must not delay ANY number of later events
+			jobs = append(jobs, ExploreJob("C16", ExploreSpec{Sc: c16Scenario(c16Params{Who: "bg-block", At: 0, Value: "none", NEvents: 80}), Variants: []int{1, 3}, Budgets: []explore.Budget{{0, 0}}, Cache: true}, 80))
 			if tier == "thorough" {
 				add(c16Params{Who: "fg", At: 2, Value: "struct", NEvents: 4})
 				add(c16Params{Who: "bg-block", At: 1, Value: "none", NEvents: 4})
